@@ -120,6 +120,7 @@ def user_regime(rng, cfg, thumb=None):
     if cfg.get('have_virt_ext'):
         sys['hcr'] = rng.getrandbits(32) & (1 << 27 | 1 << 5 | 1 << 4 | 1 << 3 | 1 << 13 | 1 << 14 | 1 << 19) if rng.random() < 0.5 else 0
         sys['hcptr'] = rng.getrandbits(14) if rng.random() < 0.3 else 0
+        sys['hstr'] = rng.getrandbits(18) & ~(1 << 4 | 1 << 14) if rng.random() < 0.5 else 0        # CP15 / ThumbEE / Jazelle (BXJ) traps to Hyp mode
     sys['cpacr'] = rng.getrandbits(28) if rng.random() < 0.5 else 0x0FFFFFFF
     sys['nsacr'] = rng.getrandbits(20) if rng.random() < 0.4 else 0x3FFF
     privonly = []
@@ -479,6 +480,13 @@ class UserMonitor:
             sp = r.get_spsr()
             if sp & 0x1F != 0x10:
                 b.violate('user.confinement', opn, 'spsr_not_user', 'after %s entry SPSR.M = %#x (CPSR before %#x)' % (taken[0], sp & 0x1F, pre_cpsr))
+            lp = getattr(self.mon, 'last_post', None)
+            if lp and lp[0] == rec['tick'] and not rec['nie'] and rec['post'] != lp[1] and len(taken) == 1:
+                # "...it has taken an architectural exception to a privileged mode AT THAT EXCEPTION'S VECTOR": the step ends with the entry; whatever
+                # the User instruction still does afterwards it does with the privileges of the handler's mode
+                regs = [M.RNAMES[i] for i, (x, y) in enumerate(zip(rec['post'][0], lp[1][0])) if x != y]
+                b.violate('user.confinement', opn, 'ran_on_after_exception_entry', 'User-mode %s (opcode %#x): after the %s entry the step went on in mode %#x and changed %s' % (
+                    opn, arm.opcode, taken[0], mode, regs or 'state'))
             return
         post = priv_snapshot(arm, b.case.get('privonly', ()))
         pre = b.user_pre
